@@ -16,7 +16,7 @@ Each line is emitted as `kern` (set semantics + exact representation) and, for t
 container, also as `kernwf`.
 Domain: x in [0,65536), 0 <= lo <= hi <= 65536, containers as the library itself can produce them (Cont.wf)."""
 from genlib import suite, CH
-from gen_kern import rand_set, card, wf_render, interval_set, ivs_union, karg
+from gen_kern import rand_set, card, wf_render, interval_set, ivs_union, karg, render
 from gen_contops import shapes, striped, complement
 
 UNARY1 = ["iaddReturnMinimized", "iremoveReturnMinimized", "iadd", "iremove"]
@@ -314,9 +314,34 @@ def _kernmutbin(g, scale):
         binary_round(g)
 
 
+def fixed_mut_cases(g):
+    """always present: ranges that TOUCH a run from below / above (the result must fuse them), ranges ending exactly at the
+    container's minimum / starting right after its maximum, and flips of array containers whose range holds a prefix with more
+    absent than present values but more present than absent values overall (in-place compaction orders)"""
+    for runs in ([(100, 200), (300, 400), (1000, 1100)], [(64, 127), (4096, 8191)], [(1, 1), (3, 3), (70, 90)]):
+        ca = wf_render(g, runs, "R") or render(g, runs, "R")
+        lo0, hi0 = runs[0]
+        lo9, hi9 = runs[-1]
+        for op in ("iaddRange", "iremoveRange", "not", "inot"):
+            for (a, b) in [(max(0, lo0 - 7), lo0), (max(0, lo0 - 7), lo0 + 1), (hi9 + 1, hi9 + 9), (hi9, hi9 + 9), (hi0 + 1, runs[1][0]),
+                           (0, lo0), (lo0, lo0)]:
+                if a <= b:
+                    emit2(g, op, ca, a, b, "fixed-touching")
+        for x in (max(0, lo0 - 1), hi0 + 1, runs[1][0] - 1, hi9 + 1):
+            emit1(g, "iaddReturnMinimized", ca, x, "fixed-touching")
+            emit1(g, "iadd", ca, x, "fixed-touching")
+    for vals, (a, b) in [([11, 12, 50], (10, 13)), ([1, 2, 3, 4, 9], (0, 5)), ([5, 6, 7, 9, 10, 11, 12, 40, 41], (4, 13)),
+                         ([2, 3, 5, 6, 7, 100], (1, 8)), ([10, 20, 21, 22, 23, 24, 30000], (9, 25)), ([0, 2, 3, 65535], (1, 4))]:
+        ca = render(g, [(v, v) for v in vals], "A")
+        for op in ("inot", "not"):
+            emit2(g, op, ca, a, b, "fixed-array-flip")
+            emit2(g, op, ca, a, b + 1, "fixed-array-flip")
+
+
 @suite("kernmut")
 def _kernmut(g, scale):
     r = g.r
+    fixed_mut_cases(g)
     for it in range(max(1, int(3 * scale))):
         # generic receivers
         for _ in range(10):
